@@ -1,19 +1,8 @@
 ----------------------------- MODULE GruleEngine -----------------------------
 (***************************************************************************)
-(* Layer A: the engine's contract as a transition system.                  *)
-(*                                                                         *)
-(* A session of calls on ONE knowledge-base instance.  Each call is an     *)
-(* Execute / ExecuteWithContext (cycles, conflict set, salience, fire,     *)
-(* retract, complete, cycle budget, evaluation and action failures,        *)
-(* cancellation) or a FetchMatchingRules (every live rule evaluated once,  *)
-(* the satisfied ones returned in non-increasing salience order, nothing   *)
-(* executed); a call starts afresh whatever the earlier calls did (C08).   *)
-(* Conditions are evaluated from scratch (GrlEval!Eval); the order in      *)
-(* which the rules of a cycle are evaluated is nondeterministic (Go map    *)
-(* iteration order).                                                       *)
-(*                                                                         *)
-(* Each action is Guard /\ Effect; TraceEngine.tla checks recorded runs of *)
-(* the real engine against the same guards.                                *)
+(* Layer A with the real expression semantics: GruleEngineCore (the engine *)
+(* contract: sessions of Execute / FetchMatchingRules calls on one         *)
+(* instance) instantiated with Holds / Fails / RunActions of GrlEval.      *)
 (***************************************************************************)
 EXTENDS GrlEval
 
@@ -37,120 +26,6 @@ VARIABLES prog, facts, maxc, flag,
           matched,      \* result of a FetchMatchingRules call
           log           \* history variable: sequence of <<"fire", rule, factsBefore>> (hidden by VIEW)
 
-vars == <<prog, facts, maxc, flag, retracted, complete, cancelled, cyc, evald, cands, phase, result, errRule, mode, calls, matched, log>>
-view == <<prog, facts, maxc, flag, retracted, complete, cancelled, cyc, evald, cands, phase, result, errRule, mode, calls, matched>>
 
-Names  == DOMAIN prog
-Live   == {r \in Names : ~prog[r].del}
-Active == Live \ retracted
-Truth(r)  == Holds(prog[r], facts)
-Broken(r) == Fails(prog[r], facts)
-MaxSal(S) == {r \in S : \A c \in S : prog[c].sal <= prog[r].sal}
-
-Init == /\ prog \in Programs /\ facts \in FactStates /\ maxc \in MaxCycles /\ flag \in Flags
-        /\ retracted = {} /\ complete = FALSE /\ cancelled = FALSE /\ cyc = 0
-        /\ evald = {} /\ cands = {} /\ phase = "eval" /\ result = "" /\ errRule = "" /\ log = <<>>
-        /\ mode \in Modes /\ calls = 1 /\ matched = <<>>
-
-Finish(res, r) == phase' = "done" /\ result' = res /\ errRule' = r
-
-\* -- evaluation of one not yet evaluated active rule --------------------------------------------------
-EvalGuard(r) == phase = "eval" /\ ~cancelled /\ r \in Active /\ r \notin evald
-EvalRule(r) ==
-  /\ EvalGuard(r)
-  /\ IF Broken(r) /\ flag
-     THEN /\ Finish("evalerr", r) /\ UNCHANGED <<evald, cands>>
-     ELSE /\ evald' = evald \cup {r}
-          /\ cands' = IF Truth(r) THEN cands \cup {r} ELSE cands
-          /\ UNCHANGED <<phase, result, errRule>>
-  /\ UNCHANGED <<prog, facts, maxc, flag, retracted, complete, cancelled, cyc, mode, calls, matched, log>>
-
-\* -- conflict resolution and firing ------------------------------------------------------------------
-FireGuard(r) == /\ phase = "eval" /\ ~cancelled /\ mode = "exec"
-                /\ evald = Active            \* every active rule was evaluated in this cycle
-                /\ r \in MaxSal(cands)       \* a candidate of maximal salience
-                /\ cyc < maxc                \* budget
-Fire(r) ==
-  /\ FireGuard(r)
-  /\ LET s == RunActions(prog[r].a, 1, [f |-> facts, ret |-> retracted, comp |-> complete, err |-> FALSE]) IN
-     /\ facts' = s.f /\ retracted' = s.ret /\ complete' = s.comp
-     /\ log' = Append(log, <<"fire", r, facts>>)
-     /\ cyc' = cyc + 1 /\ evald' = {} /\ cands' = {}
-     /\ IF s.err THEN Finish("acterr", r)
-        ELSE IF s.comp THEN Finish("nil", "")
-        ELSE UNCHANGED <<phase, result, errRule>>
-  /\ UNCHANGED <<prog, maxc, flag, cancelled, mode, calls, matched>>
-
-ReturnQuiescent == /\ phase = "eval" /\ ~cancelled /\ mode = "exec" /\ evald = Active /\ cands = {}
-                   /\ Finish("nil", "")
-                   /\ UNCHANGED <<prog, facts, maxc, flag, retracted, complete, cancelled, cyc, evald, cands, mode, calls, matched, log>>
-ReturnMaxCycle ==  /\ phase = "eval" /\ ~cancelled /\ mode = "exec" /\ evald = Active /\ cands # {} /\ cyc = maxc
-                   /\ Finish("max", "")
-                   /\ UNCHANGED <<prog, facts, maxc, flag, retracted, complete, cancelled, cyc, evald, cands, mode, calls, matched, log>>
-
-\* -- FetchMatchingRules: every live rule has been evaluated (EvalRule; nothing is retracted at the start of a call, so
-\*    Active = Live); the satisfied ones are returned, each once, in non-increasing salience order (ties in any order)
-SortedSeqs(S) == {q \in [1..Cardinality(S) -> S] :
-                    /\ \A i, j \in DOMAIN q : i # j => q[i] # q[j]
-                    /\ \A i, j \in DOMAIN q : i < j => prog[q[i]].sal >= prog[q[j]].sal}
-ReturnFetch == /\ phase = "eval" /\ mode = "fetch" /\ evald = Active
-               /\ matched' \in SortedSeqs(cands)
-               /\ Finish("nil", "")
-               /\ UNCHANGED <<prog, facts, maxc, flag, retracted, complete, cancelled, cyc, evald, cands, mode, calls, log>>
-
-\* -- the next call on the same instance starts afresh (C08): nothing of the earlier call survives but the facts ------
-NextCall(m) == /\ phase = "done" /\ calls < MaxCalls /\ m \in Modes
-               /\ phase' = "eval" /\ mode' = m /\ calls' = calls + 1
-               /\ retracted' = {} /\ complete' = FALSE /\ cancelled' = FALSE /\ cyc' = 0
-               /\ evald' = {} /\ cands' = {} /\ result' = "" /\ errRule' = "" /\ matched' = <<>>
-               /\ UNCHANGED <<prog, facts, maxc, flag, log>>
-
-\* -- cancellation: the environment may cancel at any control point; nothing fires afterwards ------------
-Cancel == /\ CanCancel /\ phase = "eval" /\ mode = "exec" /\ ~cancelled /\ cancelled' = TRUE
-          /\ UNCHANGED <<prog, facts, maxc, flag, retracted, complete, cyc, evald, cands, phase, result, errRule, mode, calls, matched, log>>
-ReturnCancelled == /\ phase = "eval" /\ cancelled
-                   /\ Finish("ctx", "")
-                   /\ UNCHANGED <<prog, facts, maxc, flag, retracted, complete, cancelled, cyc, evald, cands, mode, calls, matched, log>>
-
-Next == \/ \E r \in Names : EvalRule(r) \/ Fire(r)
-        \/ ReturnQuiescent \/ ReturnMaxCycle \/ Cancel \/ ReturnCancelled
-        \/ ReturnFetch \/ \E m \in Modes : NextCall(m)
-Spec == Init /\ [][Next]_vars
-FairSpec == Spec /\ WF_vars(Next)
-
-\* ---------------------------------------------------------------------------------------------------------
-\* Properties (the listed engine properties, at the level of the contract)
-\* C01: only an active rule whose condition holds now is ever fired
-FiresOnlyTrue == [][\A r \in Names : (cyc' = cyc + 1 /\ log' # log /\ log'[Len(log')][2] = r)
-                       => (r \in Active /\ Truth(r))]_vars
-\* C02: a nil return without Complete means no active rule is satisfied
-QuiescentAtNil == (mode = "exec" /\ result = "nil" /\ ~complete) => ~\E r \in Active : Truth(r)
-\* C03: the fired rule has maximal salience among the satisfied active rules
-FiresMaxSalience == [][\A r \in Names : (log' # log /\ log'[Len(log')][2] = r)
-                       => \A c \in Active : Truth(c) => prog[c].sal <= prog[r].sal]_vars
-\* C06: budget and faithful cycle-limit error
-WithinBudget == cyc <= maxc
-MaxIsJustified == result = "max" => (cyc = maxc /\ \E r \in Active : Truth(r))
-\* C10: a retracted rule is never evaluated or fired again; Complete ends the run
-RetractedStaysOut == [][\A r \in retracted : r \notin evald' /\ (log' # log => log'[Len(log')][2] # r)]_vars
-CompleteEnds == complete => phase = "done"
-\* C14: failures are reported, name an active rule, and stop the run
-ErrorsNamed == /\ result = "evalerr" => (flag /\ errRule \in Active /\ Broken(errRule))
-               /\ result = "acterr" => errRule \in Names
-\* C15: nothing fires after cancellation
-NoFireAfterCancel == [][cancelled => (log' = log /\ facts' = facts)]_vars
-\* C06: every run returns
-Terminates == <>(phase = "done")
-\* C08: a call starts afresh - and every invariant / action property above holds for the later calls of a session as well
-FreshAtStart == [][(phase = "done" /\ phase' = "eval") => (retracted' = {} /\ ~complete' /\ ~cancelled' /\ cyc' = 0 /\ evald' = {} /\ facts' = facts)]_vars
-\* C11: a fetch returns exactly the satisfied live rules, each once, by salience, and changes nothing
-Range(q) == {q[i] : i \in DOMAIN q}
-FetchExact == (mode = "fetch" /\ result = "nil") =>
-                 /\ Range(matched) = {r \in Live : Truth(r)} /\ Len(matched) = Cardinality(Range(matched))
-                 /\ \A i, j \in DOMAIN matched : i < j => prog[matched[i]].sal >= prog[matched[j]].sal
-FetchPure == [][(mode = "fetch" /\ mode' = "fetch" /\ calls' = calls) => (facts' = facts /\ retracted' = retracted /\ log' = log /\ complete' = complete)]_vars
-
-TypeOK == /\ phase \in {"eval", "done"} /\ result \in {"", "nil", "max", "evalerr", "acterr", "ctx"}
-          /\ evald \subseteq Names /\ cands \subseteq evald /\ retracted \subseteq STRING
-          /\ mode \in {"exec", "fetch"} /\ calls \in 1..MaxCalls /\ Range(matched) \subseteq Names
+INSTANCE GruleEngineCore
 =============================================================================
